@@ -311,8 +311,13 @@ def run_recipe(ctx: Ctx, recipe: Dict[str, Any], cid: str) -> Case:
     url = recipe.get("url", "/device.xml")
     boot = recipe.get("boot", 1)
     config = recipe.get("config", 1)
-    always_root = bool(recipe.get("always_root", False))
-    custom = recipe.get("custom_headers")  # the *_OPTION_HEADERS options (defined in server.py, never read)
+    # every option is three-valued: absent ("absent" / key missing in the recipe), present with a falsy value
+    # (False, None, 0, "", {}), present with a truthy value.  The code reads options by truthiness; so does the model.
+    ar_value = recipe.get("always_root", "absent")
+    always_root = ar_value != "absent" and bool(ar_value)
+    custom = recipe.get("custom_headers", "absent")  # the *_OPTION_HEADERS options (defined in server.py, never read)
+    extra_opts = recipe.get("extra_options") or {}   # unrelated keys in the options dicts
+    opts_dict = recipe.get("options_dict", "auto")  # "auto": a dict only when something is in it; "none": options=None; "dict"
     tags = set()
     lines: List[str] = []
     state: Dict[str, Any] = {}
@@ -399,17 +404,29 @@ def run_recipe(ctx: Ctx, recipe: Dict[str, Any], cid: str) -> Case:
         server.get_ssdp_socket = fake_get_ssdp_socket
         loop.create_datagram_endpoint = fake_endpoint  # type: ignore[method-assign]
 
-        responder_options: Optional[Dict[str, Any]] = None
-        announcer_options: Optional[Dict[str, Any]] = None
-        if always_root or custom:
-            responder_options = {}
-            if always_root:
-                responder_options[server.SSDP_SEARCH_RESPONDER_OPTION_ALWAYS_REPLY_WITH_ROOT_DEVICE] = True
-                tags.add("option:always-root")
-            if custom:
-                responder_options[server.SSDP_SEARCH_RESPONDER_OPTION_HEADERS] = dict(custom)
-                announcer_options = {server.SSDP_ADVERTISEMENT_ANNOUNCER_OPTION_HEADERS: dict(custom)}
-                tags.add("option:custom-headers")
+        responder_options: Optional[Dict[str, Any]] = {}
+        announcer_options: Optional[Dict[str, Any]] = {}
+        if ar_value != "absent":
+            responder_options[server.SSDP_SEARCH_RESPONDER_OPTION_ALWAYS_REPLY_WITH_ROOT_DEVICE] = ar_value
+            tags.add("option:always-root=" + ("truthy" if always_root else "present-falsy"))
+        else:
+            tags.add("option:always-root=absent")
+        if custom != "absent":
+            responder_options[server.SSDP_SEARCH_RESPONDER_OPTION_HEADERS] = None if custom is None else dict(custom)
+            announcer_options[server.SSDP_ADVERTISEMENT_ANNOUNCER_OPTION_HEADERS] = None if custom is None else dict(custom)
+            tags.add("option:custom-headers=" + ("non-empty" if custom else "present-empty"))
+        else:
+            tags.add("option:custom-headers=absent")
+        if extra_opts:
+            responder_options.update(extra_opts)
+            announcer_options.update(extra_opts)
+            tags.add("option:unrelated-keys")
+        # an empty options dict is passed as {} ("dict") or as None ("auto" / "none")
+        if not responder_options and opts_dict != "dict":
+            responder_options = None
+        if not announcer_options and opts_dict != "dict":
+            announcer_options = None
+        tags.add("option:dict=" + ("None" if responder_options is None else "empty" if not responder_options else "filled"))
         try:
             root_cls = make_classes(tree, url)
             ann: Dict[str, Any] = {}
@@ -432,7 +449,7 @@ def run_recipe(ctx: Ctx, recipe: Dict[str, Any], cid: str) -> Case:
             lines.append("cfg " + " ".join([tok_str(base_uri), tok_str(url), tok_str(server.HEADER_SERVER),
                                             tok_str("Thu, 01 Jan 1970 00:00:00 GMT"), tok_str(str(boot)),
                                             tok_str(str(config)), tok_str(f"{TARGET[0]}:{TARGET[1]}"), addr_tok(TARGET),
-                                            "1" if always_root else "0"]))
+                                            "absent" if ar_value == "absent" else "truthy" if always_root else "falsy"]))
             lines.extend(cls_lines(tree))
             lines.extend(dev_lines(device))
             tags.update(tree_tags(device))
@@ -728,8 +745,11 @@ def tree_cases(rng: random.Random, tree: Dict[str, Any], prefix: str, per_case: 
                                            if rng.random() < 0.85 else UNUSABLE_BASES),
                         "url": rng.choice(["/device.xml", "/", "/desc/root.xml"]),
                         "boot": rng.choice([1, 1, 7, 12345]), "config": rng.choice([1, 1, 2]),
-                        "always_root": rng.random() < 0.15, "via_server": rng.random() < 0.15,
-                        "custom_headers": {"X-CUSTOM": "1", "SERVER": "other/1.0"} if rng.random() < 0.1 else None})
+                        "always_root": rng.choice(["absent"] * 12 + [False, None, 0, "", False] + [True, True, 1, "yes"]),
+                        "via_server": rng.random() < 0.15,
+                        "custom_headers": rng.choice(["absent"] * 8 + [{}, None] + [{"X-CUSTOM": "1", "SERVER": "other/1.0"}]),
+                        "extra_options": rng.choice([None] * 5 + [{"unrelated": True, "ssdp_search_responder_always_rootdevic": True}]),
+                        "options_dict": rng.choice(["auto", "auto", "dict", "none"])})
     return recipes
 
 
@@ -855,6 +875,20 @@ CORPUS += [
                       url="/emb.xml")]),
      "ops": [["search", {"st": "ssdp:all"}], ["search", {"st": "uuid:emb"}], ["search", {"st": "urn:schemas-upnp-org:service:B:1"}],
              ["search", {"st": "urn:schemas-upnp-org:device:leaf:1"}], ["astart"], ["advance", 400000], ["astop"]]},
+]
+
+
+CORPUS += [
+    # round 7: the always-root option PRESENT BUT FALSY must behave like absent (no extra root answer)
+    {"tree": _ROOT, "always_root": v, "options_dict": "dict",
+     "ops": [["search", {"st": "ssdp:all"}], ["search", {"st": "upnp:rootdevice"}], ["search", {"st": "nothing"}],
+             ["search", {"st": "urn:schemas-upnp-org:service:B:1", "mx": "1", "sel": 0}]]}
+    for v in (False, None, 0, "")
+] + [
+    {"tree": _ROOT, "always_root": "yes", "custom_headers": {}, "extra_options": {"unrelated": 1},
+     "ops": [["search", {"st": "nothing"}], ["astart"], ["advance", 31000], ["astop"]]},
+    {"tree": _ROOT, "via_server": True, "always_root": False, "custom_headers": None,
+     "ops": [["search", {"st": "nothing"}], ["search", {"st": "upnp:rootdevice"}], ["advance", 31000], ["astop"]]},
 ]
 
 
